@@ -279,6 +279,13 @@ fn filler(field: Field, i: usize, variant: usize) -> u8 {
             _ => {}
         }
     }
+    if variant == 2 {
+        // plain letters only: nothing that a "clean ASCII word" fast path would bail out on
+        return match field {
+            Field::Ows => [b' ', b'\t'][i % 2],
+            _ => b'a' + (i % 26) as u8,
+        };
+    }
     match field {
         Field::Target => [b'a', b'/', b'~', b'!', b'z', b'%'][i % 6],
         Field::Method | Field::Name => [b'A', b'b', b'-', b'9', b'_', b'~'][i % 6],
@@ -1370,6 +1377,60 @@ pub fn g9_targeted(kind: Kind, level: usize, f: &mut dyn FnMut(&[u8])) {
                 b"\xc0\xaf", b"\xc1\xbf", b"\xe0\x9f\xbf", b"\xed\xa0\x80", b"\xed\xbf\xbf", b"\xf0\x8f\xbf\xbf", b"\xf4\x90\x80\x80", b"\xf5\x80\x80\x80",
                 b"\x80", b"\xbf", b"\xc3", b"\xe2\x82", b"\xf0\x9f\x98", b"\xff",
             ];
+            // code points that std string functions treat specially (White_Space, controls, BOM,
+            // non-characters): a parser that post-processes the target as a &str must not alter it
+            let special: [&str; 22] = ["\u{85}", "\u{a0}", "\u{1680}", "\u{2000}", "\u{2001}", "\u{2007}", "\u{200a}", "\u{2028}", "\u{2029}", "\u{202f}", "\u{205f}", "\u{3000}", "\u{feff}", "\u{200b}", "\u{200e}", "\u{ad}", "\u{80}", "\u{9f}", "\u{fffd}", "\u{e000}", "\u{130}", "\u{1e9e}"];
+            for sp in special.iter() {
+                for (pre, post) in [("/a", ""), ("", "/a"), ("/a", "b"), ("", ""), ("/", "\u{a0}")] {
+                    let mut b = b"GET ".to_vec();
+                    b.extend_from_slice(pre.as_bytes());
+                    b.extend_from_slice(sp.as_bytes());
+                    b.extend_from_slice(post.as_bytes());
+                    let cut = b.len();
+                    b.extend_from_slice(b" HTTP/1.1\r\nH: v\r\n\r\n");
+                    f(&b);
+                    f(&b[..cut + 1]);
+                }
+            }
+            // every 2-byte sequence (and a stride of the 3-byte ones) at the end and start of a target
+            for lead in 0xC2u8..=0xDF {
+                for cont in 0x80u8..=0xBF {
+                    if level == 0 && (cont % 8 != 0) {
+                        continue;
+                    }
+                    for at_end in [true, false] {
+                        let mut b = b"GET ".to_vec();
+                        if at_end {
+                            b.extend_from_slice(b"/p");
+                        }
+                        b.push(lead);
+                        b.push(cont);
+                        if !at_end {
+                            b.extend_from_slice(b"/p");
+                        }
+                        b.extend_from_slice(b" HTTP/1.0\n\n");
+                        f(&b);
+                    }
+                }
+            }
+            if level >= 1 {
+                let step = if level == 1 { 13 } else { 1 };
+                let mut n = 0usize;
+                for lead in 0xE0u8..=0xEF {
+                    for c1 in 0x80u8..=0xBF {
+                        for c2 in 0x80u8..=0xBF {
+                            n += 1;
+                            if n % step != 0 {
+                                continue;
+                            }
+                            let mut b = b"GET /".to_vec();
+                            b.extend_from_slice(&[lead, c1, c2]);
+                            b.extend_from_slice(b" HTTP/1.1\r\n\r\n");
+                            f(&b);
+                        }
+                    }
+                }
+            }
             let lens: Vec<usize> = if level == 0 { vec![1, 8, 16, 33] } else if level == 1 { vec![1, 2, 7, 8, 9, 15, 16, 17, 31, 32, 33, 40] } else { (1..=70).collect() };
             for s in seqs.iter() {
                 for &l in &lens {
